@@ -1,6 +1,7 @@
 package main
 
 import (
+	"bytes"
 	"fmt"
 	"strings"
 )
@@ -93,6 +94,13 @@ func (g *Gen) thesQueries(seg string, reuse bool) {
 			}
 			g.emit("q thesterms %s %s probe=- lo=%s hi=%s", seg, th, hx(last), hx(append(append([]byte{}, last...), 0)))
 			g.emit("q thesterms %s %s probe=- aut=none", seg, th)
+			// bounds that are empty but present: nothing lies below the empty key, everything at or above it
+			// (an interval that is empty AND whose end is itself a key is not asked for: vellum's iterator
+			// hands out its start position without comparing it with the end, see DESIGN section 9)
+			if len(first) > 0 {
+				g.emit("q thesterms %s %s probe=- lo=* hi=.", seg, th)
+			}
+			g.emit("q thesterms %s %s probe=- lo=. hi=*", seg, th)
 			if len(ks) > 1 {
 				g.emit("q thesterms %s %s probe=- lo=%s hi=%s", seg, th, hx(append(append([]byte{}, first...), 0)), hx([]byte(ks[1])))
 			}
@@ -147,6 +155,13 @@ func (g *Gen) genC12(n int) error {
 		g.emit("open %s %s", o, f)
 		g.alias(o, s)
 		g.thesQueries(o, true)
+		if i%3 == 1 {
+			// two holders: one leaves with Close, the other goes on asking the same questions
+			g.emit("ref addref %s", o)
+			g.emit("ref close %s", o)
+			g.thesQueries(o, true)
+			g.st("thes.afterfirstclose")
+		}
 		g.emit("close %s", o)
 		if i%6 == 2 {
 			g.mirroredThesCase()
@@ -219,6 +234,11 @@ func (g *Gen) genC13(n int) error {
 		}
 		if i%60 == 7 {
 			g.oddNamedThesCase()
+			g.st("case")
+			continue
+		}
+		if i%60 == 11 {
+			g.longTermsThesCase()
 			g.st("case")
 			continue
 		}
@@ -465,6 +485,11 @@ func (g *Gen) genC11(n int) error {
 		if i == 2 {
 			// several doc-value and posting chunks, two private visit states interleaved
 			g.bigFrozenCase(1026)
+			g.st("case")
+			continue
+		}
+		if i%20 == 3 {
+			g.dvWalkCase()
 			g.st("case")
 			continue
 		}
@@ -1215,4 +1240,114 @@ func (g *Gen) oddNamedThesCase() {
 	g.emit("close %s", m2)
 	g.emit("close %s", m1)
 	g.st("thes.oddnames")
+}
+
+// longTermsThesCase: left-hand terms far longer than any scratch buffer a merge might keep for "the
+// previous term" (41, 64 and 300 bytes; two of them equal in their first 40 and in their first 64
+// bytes), defined in both inputs, merged with and without deletions and merged again.
+func (g *Gen) longTermsThesCase() {
+	g.setMode()
+	long := func(n int, tail string) []byte {
+		b := bytes.Repeat([]byte("phrase-of-many-words "), n/21+1)[:n]
+		return append(b, tail...)
+	}
+	lhs := [][]byte{long(40, "a"), long(40, "b"), long(64, "x"), long(64, "y"), long(300, ""), []byte("short")}
+	var segs []string
+	for k := 0; k < 2; k++ {
+		b := &BatchSpec{Name: g.fresh("b")}
+		for d := 0; d < 3; d++ {
+			id := []byte(fmt.Sprintf("%s-%d", b.Name, d))
+			doc := DocSpec{ID: id, Plain: false}
+			doc.Fields = append(doc.Fields, FieldSpec{Kind: "fld", Name: "_id", Typ: 't', Stored: true, Len: 1, Val: id, Toks: []TokSpec{{Term: id, Freq: 1}}})
+			var defs []SynDef
+			for li, l := range lhs {
+				if (li+d+k)%2 == 0 {
+					defs = append(defs, SynDef{LHS: l, RHS: [][]byte{[]byte(fmt.Sprintf("syn%d-%d", li, k)), []byte("common")}})
+				}
+			}
+			doc.Fields = append(doc.Fields, FieldSpec{Kind: "syn", Name: "thesL", Defs: defs})
+			b.Docs = append(b.Docs, doc)
+		}
+		g.emitBatch(b)
+		s := g.fresh("s")
+		g.emit("build %s %s", s, b.Name)
+		g.newBuilt(s, b)
+		segs = append(segs, s)
+	}
+	ask := func(seg string) {
+		g.emit("q thesterms %s thesL probe=%s", seg, hxList(append(append([][]byte{}, lhs...), long(40, ""), long(64, ""))))
+		for _, l := range lhs {
+			g.emit("q thes %s thesL %s ex=nil", seg, hx(l))
+		}
+		g.emit("q thes %s thesL %s ex=nil", seg, hx(long(40, "")))
+	}
+	for _, s := range segs {
+		ask(s)
+	}
+	for _, dr := range []string{"nil|nil", "0|nil", "1|0,2"} {
+		f1 := g.fresh("f")
+		g.emit("merge %s segs=%s drops=%s", f1, strList(segs), dr)
+		m1 := g.fresh("m")
+		g.emit("open %s %s", m1, f1)
+		ask(m1)
+		f2 := g.fresh("f")
+		g.emit("merge %s segs=%s drops=nil|0", f2, strList([]string{m1, segs[0]}))
+		m2 := g.fresh("m")
+		g.emit("open %s %s", m2, f2)
+		ask(m2)
+		g.emit("close %s", m2)
+		g.emit("close %s", m1)
+	}
+	g.st("thes.longterms")
+}
+
+// dvWalkCase: doc-value chunks of two documents; a field present in every document (its last chunk
+// the largest) and one present in the first chunk only.  One visit state goes from a chunk with
+// values to one without and back; then the segment serves as the input of a merge and two private
+// states are used alternately on different chunks of it; the same on the opened file.
+func (g *Gen) dvWalkCase() {
+	g.setMode()
+	g.emit("cfg dvchunk=2")
+	b := &BatchSpec{Name: g.fresh("b")}
+	for d := 0; d < 6; d++ {
+		id := []byte(fmt.Sprintf("%s-%d", b.Name, d))
+		doc := DocSpec{ID: id, Plain: true}
+		doc.Fields = append(doc.Fields, FieldSpec{Kind: "fld", Name: "_id", Typ: 't', Stored: true, Len: 1, Val: id, Toks: []TokSpec{{Term: id, Freq: 1}}})
+		term := []byte{byte('a' + d)}
+		if d >= 4 {
+			term = []byte(fmt.Sprintf("%060d", d))
+		}
+		doc.Fields = append(doc.Fields, FieldSpec{Kind: "fld", Name: "dense", Typ: 't', Len: 1, DV: true, Toks: []TokSpec{{Term: term, Freq: 1}}})
+		if d < 2 {
+			doc.Fields = append(doc.Fields, FieldSpec{Kind: "fld", Name: "sparse", Typ: 't', Len: 1, DV: true, Toks: []TokSpec{{Term: []byte(fmt.Sprintf("s%d", d)), Freq: 1}}})
+		}
+		b.Docs = append(b.Docs, doc)
+	}
+	g.emitBatch(b)
+	s := g.fresh("s")
+	g.emit("build %s %s", s, b.Name)
+	g.newBuilt(s, b)
+	fields := strList([]string{"dense", "sparse"})
+	walk := func(seg string) {
+		st := g.fresh("st")
+		for _, d := range []int{0, 3, 1, 5, 0, 2, 1} {
+			g.emit("q dv %s %s fields=%s doc=%d", seg, st, fields, d)
+		}
+		f := g.fresh("f")
+		g.emit("merge %s segs=%s drops=nil", f, seg)
+		sa, sb := g.fresh("st"), g.fresh("st")
+		for k, d := range []int{0, 4, 1, 5, 0, 2, 1, 4, 0} {
+			g.emit("q dv %s %s fields=%s doc=%d", seg, []string{sa, sb}[k%2], fields, d)
+		}
+	}
+	walk(s)
+	fp := g.fresh("f")
+	g.emit("persist %s %s", s, fp)
+	o := g.fresh("o")
+	g.emit("open %s %s", o, fp)
+	g.alias(o, s)
+	walk(o)
+	g.emit("close %s", o)
+	g.emit("cfg dvchunk=1024")
+	g.st("dv.walk")
 }
